@@ -7,7 +7,7 @@
    slash-joined paths, minus export-ignored paths. *)
 From Coq Require Import ZArith List Permutation.
 From GixV.Base Require Import Bytes BytesFacts Outcome.
-From GixV.C55 Require Import Model Spec ProofsWalk ProofsRT ProofsTop.
+From GixV.C55 Require Import Model Spec ProofsWalk ProofsRT ProofsTop ProofsTotal.
 Import ListNotations.
 Local Open Scope N_scope.
 
@@ -60,6 +60,11 @@ Theorem tar_header_fields : forall prefix e,
   | KTree | KCommit => t_type (tar_item_of prefix e) = TDirectory
   end.
 Proof. exact L_tar_item. Qed.
+
+(* Reading ANY byte sequence with any read sizes (zero included) terminates: the consumer loop never runs out of
+   the fuel the model gives it (every read that delivers bytes consumes them; every entry consumes its header). *)
+Theorem decode_terminates : forall sizes s, snd (decode sizes s) <> EndHang.
+Proof. exact L_decode_no_hang. Qed.
 
 (* ---- non-vacuity ------------------------------------------------------------------------------------------- *)
 
